@@ -370,6 +370,13 @@ def wild_cubics(rng):
 
 
 def generate(rng, tier):
+    # wide strokes at fine tolerance with ROUND joins and caps (width / tolerance 5e3 .. 1e6): the arcs of the caps and joins must honour the stroke
+    # tolerance (they used to be drawn with a fixed 1e-3 on the unit circle = width/2000 in the output: 13 tolerances at width 100, tolerance 1e-3)
+    for k in range(10 if tier == 'quick' else 150):
+        w = rng.choice([50.0, 100.0, 400.0, 2000.0])
+        tolw = w * 10.0 ** rng.uniform(-6, -3.7)
+        els = polyline(rng, False) if k % 2 else [('M', (rng.uniform(-5, 5), rng.uniform(-5, 5))), ('L', (rng.uniform(20, 60), rng.uniform(-5, 5)))]
+        yield region(els, w, 2, 2 if k % 3 else 0, 4.0, 0.0, [], tolw, 36 if tier == 'quick' else 90, rng.randrange(1 << 30), 'wide-round')
     n = 150 if tier == 'quick' else 1800
     nq = 36 if tier == 'quick' else 90
     for k in range(n):
